@@ -4,6 +4,7 @@ import (
 	"crypto/sha256"
 	"encoding/hex"
 	"encoding/json"
+	"errors"
 	"fmt"
 	"os"
 	"regexp"
@@ -69,29 +70,29 @@ type History struct {
 	Donations map[string]sdk.Coins
 	Known     map[string]bool // known-finding ids hit
 	Excluded  map[string]int
-	Ext       map[string]any // per-profile scratch (models)
+	Ext       map[string]any               // per-profile scratch (models)
 	LastPrice map[string]sdkmath.LegacyDec // last elys-source price seen per asset display
 }
 
 type Profile struct {
-	ID          string
-	Name        string
-	Weights     map[string]int
-	MinBlocks   int
-	MaxBlocks   int
-	MaxTxs      int
-	Spec        func(t *rapid.T) WorldSpec
-	Prepare     func(h *History) error                 // after BuildWorld, before history
-	PreBlock    func(h *History, g *G) []EnvAction      // env actions drawn before a block
-	Filter      func(h *History, g *G, op *Op) bool     // false → drop op (counted)
-	Check       func(h *History, blk *BlockRecord) []Violation
-	Final       func(h *History) []Violation
-	NonTrivial  func(h *History) bool
-	Rule        string
-	Gaps        []time.Duration
+	ID         string
+	Name       string
+	Weights    map[string]int
+	MinBlocks  int
+	MaxBlocks  int
+	MaxTxs     int
+	Spec       func(t *rapid.T) WorldSpec
+	Prepare    func(h *History) error              // after BuildWorld, before history
+	PreBlock   func(h *History, g *G) []EnvAction  // env actions drawn before a block
+	Filter     func(h *History, g *G, op *Op) bool // false → drop op (counted)
+	Check      func(h *History, blk *BlockRecord) []Violation
+	Final      func(h *History) []Violation
+	NonTrivial func(h *History) bool
+	Rule       string
+	Gaps       []time.Duration
 	// BlockFailureIsViolation: FinalizeBlock/Commit error or panic is this property's violation (C18)
 	BlockFailureIsViolation bool
-	VaryFees                bool // pay tx fees in any funded denom
+	VaryFees                bool                         // pay tx fees in any funded denom
 	ExtraOps                func(h *History, g *G) []*Op // profile-specific txs added to every block
 	FinalOps                func(h *History, g *G) []*Op // txs of a closing block (tagged "final" in the trace)
 }
@@ -551,6 +552,12 @@ func ReplayTraceH(p *Profile, tr *Trace) (*History, []Violation, error) {
 	for _, b := range tr.Blocks {
 		for _, e := range b.Env {
 			if err := ApplyEnv(h.W, e); err != nil {
+				if errors.Is(err, ErrEnvRefused) {
+					// e.g. a parameter setting that validation now rejects: the rest of the trace has no
+					// meaning on this tree, and nothing observed so far violated anything
+					h.Labels["replay-env-refused"]++
+					return h, nil, nil
+				}
 				return nil, nil, err
 			}
 		}
